@@ -10,4 +10,7 @@ def wrap (bits : Nat) (x : Nat) : Nat := x % 2 ^ bits
 /-- Go's `a - b` on an unsigned type of `bits` bits (operands already in range). -/
 def subw (bits : Nat) (a b : Nat) : Nat := (a + 2 ^ bits - b) % 2 ^ bits
 
+/-- Go's wrap-around on a signed type of `bits` bits (two's complement) -/
+def wrapS (bits : Nat) (x : Int) : Int := (x + 2 ^ (bits - 1)) % 2 ^ bits - 2 ^ (bits - 1)
+
 end BHS
